@@ -513,6 +513,26 @@ def _job_clock(job: dict[str, Any], chk: Check, judge: Judge) -> None:
                     o = lab.present(method, idx, cur0, call1, cancel=cancel)
                     judge.must_reject(o, "expired:age>=ttl+1", "both", route, {"ttl": ttl})
             clock.now = t1 + 40 * ttl + 1000
+            # the same lifetime across two workers with call-state caches: /init on worker A, the continuation at
+            # age TTL-1 on worker B (whose cache is filled by the miss path), the late presentations on both
+            if ttl >= 2:
+                t2 = clock.now
+                lab_a, lab_b = Lab(ttl=ttl, cache=64), Lab(ttl=ttl, cache=64)
+                cur0, call2 = lab_a.harvest(method, idx, 0)
+                clock.now = t2 + ttl - 1
+                r = tl.exchange(lab_b.app, method, idx, tl.cont_body(IN_COLS[method], cur0, call2))
+                cur1, _ = tl.tokens_of(r)
+                if cur1 is None:
+                    chk.violation(f"unexpired_rejected:{route}:second_worker", "continuation at age TTL-1 on a second worker failed", {"ttl": ttl, "outcome": tl.outcome(r)})
+                else:
+                    chk.hit("second_worker_refill_turn")
+                    for lab_x, wname in ((lab_b, "refilled_worker"), (lab_a, "init_worker")):
+                        for off in (ttl + 1, 3 * ttl + 5):
+                            clock.now = t2 + off
+                            o = lab_x.present(method, idx, cur1, call2, cancel=cancel)
+                            chk.hit("expired_presented")
+                            judge.must_reject(o, f"expired:call_token_only(cursor fresh):{wname}", "call", route, {"ttl": ttl, "age": off, "worker": wname})
+                clock.now = t2 + 40 * ttl + 1000
     if clock.reads:
         chk.hit("clock_shim_read", clock.reads)
 
